@@ -440,8 +440,8 @@ def collision_cases(rng, n):
             digits = ''.join('%02d' % rng.randint(1, 12) for _ in range(w // 2))
         codec = rng.choice(CODECS)
 
-        def mk(order, with_pds):
-            bits = sorted(rng.sample(range(2, 128), len(order) + 4))
+        def mk(order, with_pds, bits=None):
+            bits = sorted(rng.sample(range(2, 128), len(order) + 4)) if bits is None else list(bits)
             cfg, m = {}, {'MTI': '%04d' % rng.randrange(10000)}
             for b, f in zip(bits, order):
                 cfg[str(b)] = {'field_name': 'd%d' % b, 'field_type': 'FIXED', 'field_length': w, 'field_python_type': 'datetime', 'field_date_format': f}
@@ -463,7 +463,16 @@ def collision_cases(rng, n):
         if i % 3:
             warm = []
             for _ in range(rng.randint(1, 2)):
-                wcfg, wm = mk(rng.sample(fmts, rng.randint(1, len(fmts))), rng.random() < 0.7)
+                if rng.random() < 0.5:
+                    # the SAME set of element numbers with the roles dealt differently (carriers, dates, int, text on other
+                    # bits): anything keyed by the configuration's key set takes the two for one
+                    wbits = sorted(int(k) for k in cfg)
+                    rng.shuffle(wbits)
+                    n_dates = len(wbits) - 4
+                    wcfg, wm = mk(rng.sample(fmts * 2, n_dates) if n_dates <= 2 * len(fmts) else [rng.choice(fmts) for _ in range(n_dates)],
+                                  rng.random() < 0.8, bits=wbits)
+                else:
+                    wcfg, wm = mk(rng.sample(fmts, rng.randint(1, len(fmts))), rng.random() < 0.7)
                 warm.append({'cfg': wcfg, 'codec': rng.choice([codec, rng.choice(CODECS)]), 'hex': rng.random() < 0.5, 'msg': dict_text(wm),
                              'how': ['plain', 'inplace', 'fresh'][i % 3 + (_ % 2) if i % 3 + (_ % 2) < 3 else 0]})
             case['warm'] = warm
